@@ -299,8 +299,8 @@ func putRig(r *rig) {
 
 // Cluster is one simulated cluster (API state + caches + one controller).
 type Cluster struct {
-	r       *rig
-	tracker clienttesting.ObjectTracker
+	r        *rig
+	tracker  clienttesting.ObjectTracker
 	objReact clienttesting.ReactionFunc
 
 	clock int64
@@ -363,11 +363,11 @@ func (c *Cluster) Restart() {
 	putRig(old)
 }
 
-func (c *Cluster) Ctrl() *statefulset.StatefulSetController { return c.r.ctrl }
-func (c *Cluster) Kube() *kubefake.Clientset                  { return c.r.kube }
-func (c *Cluster) PC() *pcfake.Clientset                      { return c.r.pc }
-func (c *Cluster) PodHandlers() []cache.ResourceEventHandler  { return c.r.podHandlers }
-func (c *Cluster) SetHandlers() []cache.ResourceEventHandler  { return c.r.setHandlers }
+func (c *Cluster) Ctrl() *statefulset.StatefulSetController  { return c.r.ctrl }
+func (c *Cluster) Kube() *kubefake.Clientset                 { return c.r.kube }
+func (c *Cluster) PC() *pcfake.Clientset                     { return c.r.pc }
+func (c *Cluster) PodHandlers() []cache.ResourceEventHandler { return c.r.podHandlers }
+func (c *Cluster) SetHandlers() []cache.ResourceEventHandler { return c.r.setHandlers }
 
 func (c *Cluster) clearCaches() {
 	c.r.podInf.Informer().GetIndexer().Replace(nil, "")
